@@ -6,7 +6,7 @@ split, nothing trimmed), .leading_blank, .trailing_sep, .blank_only.
 
 
 class Piece(object):
-    __slots__ = ('sid', 'elements', 'leading_blank', 'trailing_sep', 'blank_only', 'raw', 'lead')
+    __slots__ = ('sid', 'elements', 'leading_blank', 'trailing_sep', 'blank_only', 'raw', 'lead', 'empty')
 
     def normal(self):
         els = []
@@ -24,7 +24,9 @@ def terms_of(text):
     return (text[105], text[3], text[104])     # segment, element, component
 
 
-def tokenize(text):
+def tokenize(text, keep_empty=False):
+    """keep_empty: also return the empty pieces (a terminator directly after a terminator / its line break) as Piece(empty=True, blank_only=True),
+    for callers that re-write the text and must not lose them"""
     seg_t, ele_t, sub_t = terms_of(text)
     pieces = []
     parts = text.split(seg_t)
@@ -32,8 +34,13 @@ def tokenize(text):
     for raw in parts:
         line = raw.lstrip('\r\n')
         if line == '':
+            if keep_empty:
+                p = Piece()
+                p.raw, p.empty, p.blank_only, p.leading_blank, p.trailing_sep, p.lead, p.sid, p.elements = raw, True, True, False, False, '', '', []
+                pieces.append(p)
             continue
         p = Piece()
+        p.empty = False
         p.raw = raw
         p.leading_blank = line.startswith(' ')
         p.lead = ''
